@@ -140,8 +140,15 @@ static inline bool uqueue_push(struct uqueue *uqueue, void *element)
         ueventfd_read(&uqueue->event_push);
 
         /* double-check */
-        if (likely(!ufifo_push(&uqueue->fifo, element)))
+        if (likely(!ufifo_push(&uqueue->fifo, element))) {
+            /* the counter lags behind the FIFO while another push or pop is
+             * in progress, in which case the pop freeing a slot would not
+             * see the queue as full and would not wake us up */
+            if (unlikely((int32_t)uatomic_load(&uqueue->counter) <
+                         (int32_t)uqueue->length))
+                ueventfd_write(&uqueue->event_push);
             return false;
+        }
 
         /* signal that we're alright again */
         ueventfd_write(&uqueue->event_push);
@@ -166,8 +173,13 @@ static inline void *uqueue_pop_internal(struct uqueue *uqueue)
 
         /* double-check */
         element = ufifo_pop(&uqueue->fifo, void *);
-        if (likely(element == NULL))
+        if (likely(element == NULL)) {
+            /* likewise, the push storing the next element would not see
+             * the queue as empty while another pop is in progress */
+            if (unlikely((int32_t)uatomic_load(&uqueue->counter) > 0))
+                ueventfd_write(&uqueue->event_pop);
             return NULL;
+        }
 
         /* signal that we're alright again */
         ueventfd_write(&uqueue->event_pop);
